@@ -221,7 +221,7 @@ def _history(args):
                     attrs = {l: [["name", names[l]]] for l in labels}
                     other_events.append(("TraceExport", {"id": eid, "q": "dict_export", "par": prepar, "ch": prech, "attrs": attrs, "s": start,
                                                          "o": {"attriter": "none", "ml": ml, "ci": {"kind": extra, "hide": [], "key": {l: i for i, l in enumerate(labels)}}},
-                                                         "obs": export_replay.derender_dict(got, sorted(set(names.values())))}))
+                                                         "obs": export_replay.flatten_d(export_replay.derender_dict(got, sorted(set(names.values()))))}))
                 else:
                     hide, st = extra
                     fls, sts = set(labels) - set(hide), set(st)
